@@ -10,7 +10,7 @@
    ..._refuted witness shows the difference on a concrete input. *)
 From Verif Require Import Lib.Bytes Json.Ast Auth.GoJson Auth.Ids Auth.Types Auth.Versions Auth.Abs
      Auth.Decide Auth.Model Auth.AllowedSpec Auth.PLSpec Auth.PLProofs Auth.SpecProofs
-     Auth.Departures Auth.DepartureProofs Auth.DepartureExamples.
+     Auth.Departures Auth.DepartureProofs Auth.DepartureExamples Auth.TpiBlock.
 Open Scope Z_scope.
 
 (* the rules accept exactly when the library's procedure answers "allowed" *)
@@ -211,6 +211,36 @@ Theorem F18_refuted :
                          (cc_ok true) (Some (Some [bs "key"])) true false in
   decide_model banned = VOk /\ decide_spec (wit_rules true) banned = false
   /\ decide_model other = VOk /\ decide_spec (wit_rules true) other = false.
+Proof. vm_compute. repeat split; reflexivity. Qed.
+
+(* the third-party-invite rule belongs to membership invite only: on every other membership the
+   rules -- under any choice of departures, hence also the literal text -- ignore the block *)
+Theorem third_party_block_ignored_on_non_invite :
+  forall sv a, not_invite a -> decide_spec sv (strip_tpi a) = decide_spec sv a.
+Proof. exact block_ignored. Qed.
+
+Theorem third_party_block_ignored_on_non_invite_with :
+  forall d sv a x, not_invite a -> decide_spec_with d sv (strip_tpi a) x = decide_spec_with d sv a x.
+Proof. exact block_ignored_with. Qed.
+
+(* F27: the library refuses a join that carries a block whose m.room.third_party_invite event is
+   missing, where the rules (a public room, the user has left) accept *)
+Theorem F27_refuted :
+  let t := {| t_mxid := bs "@alice:hs1"; t_token := bs "tok"; t_sigs := [] |} in
+  let m := {| m_membership := MsJoin; m_tpi := Some t; m_via := []; m_mapping := None |} in
+  let a0 := wit_input (wit_flags CrV1) KMember (Some (bs "@alice:hs1")) JrPublic (Some m) (Some MsLeave)
+                      (cc_ok true) None false false in
+  let a := {| ai_flags := ai_flags a0; ai_provider_ok := true; ai_one_room := true; ai_kind := KMember;
+              ai_type := ai_type a0; ai_room := ai_room a0; ai_room_kind := ai_room_kind a0;
+              ai_sender := ai_sender a0; ai_sender_domain := ai_sender_domain a0; ai_state_key := ai_state_key a0;
+              ai_prev := ai_prev a0; ai_create := ai_create a0; ai_pl_present := false; ai_pl := ai_pl a0;
+              ai_join_rule := JrPublic; ai_sender_member := Some MsLeave; ai_new_member := Some m;
+              ai_target_member := Some MsLeave; ai_tpi_event := None; ai_sig_ok := false; ai_sig_ok_spec := false;
+              ai_tpi_sender_ok := false; ai_via_split_ok := false; ai_via_member := None;
+              ai_new_pl := None; ai_new_pl_users_ok := true; ai_redacts_domain := None;
+              ai_cc := cc_ok true |} in
+  decide_model a = VNotAllowed /\ decide_spec (wit_rules true) a = true
+  /\ decide_model (strip_tpi a) = VOk.
 Proof. vm_compute. repeat split; reflexivity. Qed.
 
 (* non-vacuity of the main theorem: an ordinary accepted invite satisfies every hypothesis *)
@@ -449,6 +479,9 @@ Print Assumptions v12_versions_privileged.
 Print Assumptions F22_refuted.
 Print Assumptions F26_refuted.
 Print Assumptions F18_refuted.
+Print Assumptions F27_refuted.
+Print Assumptions third_party_block_ignored_on_non_invite.
+Print Assumptions third_party_block_ignored_on_non_invite_with.
 Print Assumptions rules_are_all_departures_on.
 Print Assumptions literal_is_all_departures_off.
 Print Assumptions dep_only_differs_when.
